@@ -773,6 +773,30 @@ def gen_reader(dbmap_path, outp, tier):
                 name_s, name_body = (s, body) if (form == "cdata" or label != "lead-trail-ws") else ("n", "n")
                 doc = '<roblox version="4"><Item class="ZzUnknownThing" referent="RBX0"><Properties><string name="Name">%s</string>%s</Properties></Item></roblox>' % (name_body, prop_xml(tag, "V", body))
                 emit(doc, [{"class": "ZzUnknownThing", "name": name_s, "props": {"V": "String:" + hexs(s.encode())}, "children": []}], "string-form:%s:%s" % (form, label), "unknown")
+    # XML syntax freedoms inside one text value: the character data of an element is the
+    # concatenation of its text, CDATA sections and character references; comments between the
+    # pieces are not part of it.  left / middle / right pieces x their forms x a comment before and
+    # after the middle piece, in string, ProtectedString and a ContentId's url.
+    def piece(text, form):
+        if form == "cdata":
+            return "<![CDATA[" + text + "]]>"
+        if form == "charref":
+            return "".join("&#x%x;" % ord(ch) for ch in text)
+        return esc(text)
+    for left, lform in [("Hello,", "text"), ("x", "cdata")]:
+        for right, rform in [("world", "text"), ("y", "cdata")]:
+            for mid in [" ", "\n", "  \t", "m", ""]:
+                for mform in ("text", "cdata", "charref"):
+                    if mid == "" and mform != "text":
+                        continue
+                    for sep1 in ("", "<!--c-->", "<!-- a --><!-- b -->"):
+                        for sep2 in ("", "<!--c-->"):
+                            body = piece(left, lform) + sep1 + piece(mid, mform) + sep2 + piece(right, rform)
+                            want = left + mid + right
+                            for tag, inner in [("string", body), ("ProtectedString", body), ("ContentId", "<url>" + body + "</url>")]:
+                                rendered = ("ContentId:" if tag == "ContentId" else "String:") + hexs(want.encode())
+                                doc = '<roblox version="4"><Item class="ZzUnknownThing" referent="RBX0"><Properties><string name="Name">t</string>%s</Properties></Item></roblox>' % prop_xml(tag, "V", inner)
+                                emit(doc, [{"class": "ZzUnknownThing", "name": "t", "props": {"V": rendered}, "children": []}], "text-syntax:%s:%s%s" % (mform, "comments" if (sep1 or sep2) else "adjacent", ":ws" if mid.strip() == "" and mid else ""), "unknown")
     # Color3uint8 without the FF high byte; ContentId null; Font with CachedFaceId
     for tag, inner, rendered, dim in [
         ("Color3uint8", str(0x00604020), "Color3uint8(96,64,32)", "color3uint8-without-ff"),
